@@ -7,7 +7,7 @@
 From Coq Require Import Arith NArith List Bool Lia.
 From DM Require Import Generated.Symbols Generated.ModeTables Model.Outcome Model.SymbolList Model.Planner Model.PlannerRun Model.Eci Model.Enc
   Model.Dec Model.Api Spec.Stream16022 Proofs.SymbolListProofs Proofs.EncLocal Proofs.EncTop Proofs.EncAscii
-  Proofs.EncB256 Proofs.DecStream Proofs.PlanShape Proofs.PlanTotal Proofs.PlanAlign Proofs.EncAB Proofs.EncABTotal Proofs.EncABXTotal Proofs.EncABXETotal.
+  Proofs.EncB256 Proofs.DecStream Proofs.PlanShape Proofs.PlanTotal Proofs.PlanAlign Proofs.EncAB Proofs.EncABTotal Proofs.EncABXTotal Proofs.EncABXETotal Model.RSEnc Proofs.RSEncLen.
 Import ListNotations.
 Local Open Scope N_scope.
 
@@ -1106,3 +1106,33 @@ Proof.
   - cbn [bind]. apply STEP; [reflexivity|exact HBY|reflexivity].
 Qed.
 Print Assumptions abx_total6.
+
+(* in the words of the property: a value, or an error that is 'symbol list empty' exactly for the empty list *)
+Theorem value_or_classified_error sorter data symbols eci modes use_macros fnc1 :
+  (forall sl k l, exists l', sorter sl k l = Ok l' /\ incl l' l) ->
+  bytes_ok data = true ->
+  match eci with Some c => c <= 999999 | None => True end ->
+  (exists cw size, encode_data_internal (optimize_fn sorter) data symbols eci modes use_macros fnc1 = Ok (cw, size)) \/
+  (exists x, encode_data_internal (optimize_fn sorter) data symbols eci modes use_macros fnc1 = Err x /\
+             (x = SymbolListEmpty <-> symbols = []) /\ (x <> SymbolListEmpty -> x = TooMuchOrIllegalData)).
+Proof.
+  intros HS HB HE. pose proof (abx_total6 sorter data symbols eci modes use_macros fnc1 HS HB HE) as NP.
+  destruct (encode_data_internal (optimize_fn sorter) data symbols eci modes use_macros fnc1) as [[cw size]|x|p] eqn:E.
+  - left. exists cw, size. reflexivity.
+  - right. exists x. split; [reflexivity|]. split; [exact (encode_internal_err _ _ _ _ _ _ _ _ E)|]. intros NE. destruct x; try reflexivity; exfalso; apply NE; reflexivity.
+  - contradiction.
+Qed.
+
+(* through DataMatrixBuilder::encode_eci, which appends the error correction codewords: the Reed-Solomon step is total on a data vector of
+   the chosen symbol's capacity, which is what the padding produces *)
+Theorem builder_total sorter data symbols modes use_macros fnc1 eci :
+  (forall sl k l, exists l', sorter sl k l = Ok l' /\ incl l' l) ->
+  bytes_ok data = true ->
+  match eci with Some c => c <= 999999 | None => True end ->
+  no_panic (encode_eci sorter data symbols modes use_macros fnc1 eci).
+Proof.
+  intros HS HB HE. unfold encode_eci. pose proof (abx_total6 sorter data symbols eci modes use_macros fnc1 HS HB HE) as NP.
+  destruct (encode_data_internal (optimize_fn sorter) data symbols eci modes use_macros fnc1) as [[cw size]|x|p] eqn:E; cbn [bind]; [|exact I|contradiction].
+  destruct (encode_internal_ok _ _ _ _ _ _ _ _ _ E) as (_ & L & _).
+  destruct (encode_error_total size cw ltac:(lia)) as (ecc & ->). exact I.
+Qed.
